@@ -34,6 +34,7 @@ type vfWire struct {
 	Dst     string        // destination address
 	Data    []byte
 	Deliver bool // true: delivery event; false: emission event
+	Read    bool // true (with Deliver): the endpoint named in From took a datagram out of its inbox
 	Idx     int  // per-source emission index (emissions only)
 }
 
@@ -172,6 +173,14 @@ func (n *vfNet) emit(ep *vfEndpoint, data []byte, dst net.Addr) {
 	n.Deliver(w.Dst, w.Data, ep.addr)
 }
 
+// noteRead logs the causal boundary "endpoint ep starts processing its next datagram".
+func (n *vfNet) noteRead(ep *vfEndpoint) {
+	w := &vfWire{Ticket: n.ticket.Add(1), VTime: n.Now(), From: ep.name, Dst: string(ep.addr), Deliver: true, Read: true}
+	n.mu.Lock()
+	n.log = append(n.log, w)
+	n.mu.Unlock()
+}
+
 // Emissions returns a snapshot of the emission events of endpoint name ("" = all).
 func (n *vfNet) Emissions(name string) []*vfWire {
 	n.mu.Lock()
@@ -245,6 +254,7 @@ func (e *vfEndpoint) ReadFrom(b []byte) (int, net.Addr, error) {
 				tm.Stop()
 			}
 			e.reads.Add(1)
+			e.net.noteRead(e)
 			n := copy(b, dg.data)
 
 			return n, dg.from, nil
